@@ -7,7 +7,12 @@
  *   imgfile <path>             -> ok <len>          (like `file`, content taken from a file)
  *   img open                   -> st=<..> (status of each load step)
  *   img walk                   -> refs=<ref:type:xattr_idx;...>   (enumerated with a throw-away reader set)
- *   img inode <ref> | ls <ref> | path <hexpath> | read <ref> <off> <size> | cat <ref> | xattr <idx> | xattrkv <idx> | id <idx>
+ *   img inode <ref> | ls <ref> | path <hexpath> | read <ref> <off> <size> | cat <ref> [order] | xattr <idx> | xattrkv <idx> | id <idx>
+ *       (order: the three file-data APIs r = positional read, b = blocks + fragment, s = stream, in the order given, default rbs)
+ *   img frag <ref> | stream <ref> | block <ref> <index>      (one file-data API alone: finds whatever an earlier op left cached)
+ *   img lsopen <slot> <ref>    -> st=<..>   open a directory on the long-lived reader set, cursor kept in <slot>
+ *   img lsnext <slot>          -> one sqfs_dir_reader_read with that cursor on the long-lived set || on a fresh set with a copy
+ *   img reload                 -> sqfs_data_reader_load_fragment_table again on the long-lived data reader
  */
 #include "config.h"
 #include "sqfs/predef.h"
@@ -154,34 +159,27 @@ static void q_read(rset_t *r, sqfs_u64 ref, sqfs_u64 off, sqfs_u64 size)
 	sqfs_free(ino);
 }
 
-/* whole file through the three APIs */
-static void q_cat(rset_t *r, sqfs_u64 ref)
+/* whole file through one of the three APIs */
+static void cat_read(rset_t *r, const sqfs_inode_generic_t *ino)
 {
-	sqfs_inode_generic_t *ino = NULL;
-	unsigned long long h, len;
-	sqfs_u64 filesz = 0;
-	size_t i, nblk;
-	int st = sqfs_dir_reader_get_inode(r->dr, ref, &ino);
-	if (st) { printf("inode=%d", st); return; }
-	if (!is_file(ino)) { printf("notfile"); sqfs_free(ino); return; }
-	sqfs_inode_get_file_size(ino, &filesz);
-	if (filesz > (64u << 20)) { printf("toobig"); sqfs_free(ino); return; }
-	/* 1: positional reads of 1000 bytes */
-	{
-		unsigned char buf[1000];
-		sqfs_u64 off = 0;
-		h = FNV0; len = 0; st = 0;
-		for (;;) {
-			sqfs_s32 ret = sqfs_data_reader_read(r->data, ino, off, buf, sizeof(buf));
-			if (ret < 0) { st = ret; break; }
-			if (ret == 0) break;
-			h = fnv(h, buf, (size_t)ret); len += ret; off += ret;
-		}
-		printf("read=%d:%llu:%016llx", st, len, h);
+	unsigned char buf[1000];
+	unsigned long long h = FNV0, len = 0;
+	sqfs_u64 off = 0;
+	int st = 0;
+	for (;;) {
+		sqfs_s32 ret = sqfs_data_reader_read(r->data, ino, off, buf, sizeof(buf));
+		if (ret < 0) { st = ret; break; }
+		if (ret == 0) break;
+		h = fnv(h, buf, (size_t)ret); len += ret; off += ret;
 	}
-	/* 2: per-block access + fragment */
-	nblk = sqfs_inode_get_file_block_count(ino);
-	h = FNV0; len = 0; st = 0;
+	printf("read=%d:%llu:%016llx", st, len, h);
+}
+
+static void cat_blocks(rset_t *r, const sqfs_inode_generic_t *ino)
+{
+	unsigned long long h = FNV0, len = 0;
+	size_t i, nblk = sqfs_inode_get_file_block_count(ino);
+	int st = 0;
 	for (i = 0; i < nblk && st == 0; ++i) {
 		sqfs_u8 *out = NULL; size_t sz = 0;
 		st = sqfs_data_reader_get_block(r->data, ino, i, &sz, &out);
@@ -194,24 +192,54 @@ static void q_cat(rset_t *r, sqfs_u64 ref)
 		if (st == 0) { h = fnv(h, out, sz); len += sz; }
 		free(out);
 	}
-	printf(" blocks=%d:%llu:%016llx", st, len, h);
-	/* 3: stream */
-	{
-		sqfs_istream_t *in = NULL;
-		h = FNV0; len = 0;
-		st = sqfs_data_reader_create_stream(r->data, ino, "f", &in);
-		while (st == 0) {
-			const sqfs_u8 *p; size_t sz;
-			int ret = in->get_buffered_data(in, &p, &sz, 4096);
-			if (ret > 0) break;
-			if (ret < 0) { st = ret; break; }
-			h = fnv(h, p, sz); len += sz;
-			in->advance_buffer(in, sz);
-			if (len > (128u << 20)) { st = -999; break; }
-		}
-		if (in) sqfs_drop(in);
-		printf(" stream=%d:%llu:%016llx", st, len, h);
+	printf("blocks=%d:%llu:%016llx", st, len, h);
+}
+
+static void cat_stream(rset_t *r, const sqfs_inode_generic_t *ino)
+{
+	sqfs_istream_t *in = NULL;
+	unsigned long long h = FNV0, len = 0;
+	int st = sqfs_data_reader_create_stream(r->data, ino, "f", &in);
+	while (st == 0) {
+		const sqfs_u8 *p = NULL; size_t sz = 0;
+		int ret = in->get_buffered_data(in, &p, &sz, 4096);
+		if (ret > 0) break;
+		if (ret < 0) { st = ret; break; }
+		h = fnv(h, p, sz); len += sz;
+		in->advance_buffer(in, sz);
+		if (len > (128u << 20)) { st = -999; break; }
 	}
+	if (in) sqfs_drop(in);
+	printf("stream=%d:%llu:%016llx", st, len, h);
+}
+
+static void q_cat(rset_t *r, sqfs_u64 ref, const char *order)
+{
+	sqfs_inode_generic_t *ino = NULL;
+	sqfs_u64 filesz = 0;
+	const char *c;
+	int st = sqfs_dir_reader_get_inode(r->dr, ref, &ino);
+	if (st) { printf("inode=%d", st); return; }
+	if (!is_file(ino)) { printf("notfile"); sqfs_free(ino); return; }
+	sqfs_inode_get_file_size(ino, &filesz);
+	if (filesz > (64u << 20)) { printf("toobig"); sqfs_free(ino); return; }
+	for (c = order; *c; ++c) {
+		if (c != order) putchar(' ');
+		if (*c == 'r') cat_read(r, ino); else if (*c == 'b') cat_blocks(r, ino); else cat_stream(r, ino);
+	}
+	sqfs_free(ino);
+}
+
+static void q_block(rset_t *r, sqfs_u64 ref, sqfs_u64 idx)
+{
+	sqfs_inode_generic_t *ino = NULL;
+	sqfs_u8 *out = NULL; size_t sz = 0;
+	int st = sqfs_dir_reader_get_inode(r->dr, ref, &ino);
+	if (st) { printf("inode=%d", st); return; }
+	if (!is_file(ino)) { printf("notfile"); sqfs_free(ino); return; }
+	st = sqfs_data_reader_get_block(r->data, ino, (size_t)idx, &sz, &out);
+	if (st) printf("st=%d", st); else printf("st=0 n=%zu h=%016llx", sz, fnv(FNV0, out, sz));
+	free(out);
 	sqfs_free(ino);
 }
 
@@ -318,17 +346,43 @@ static void query(rset_t *r, char **w, int nw)
 		q_path(r, (const char *)p); free(p);
 	}
 	else if (!strcmp(w[1], "read") && nw == 5 && !pu64i(w[2], &a) && !pu64i(w[3], &b) && !pu64i(w[4], &c) && c <= (16u << 20)) q_read(r, a, b, c);
-	else if (!strcmp(w[1], "cat") && nw == 3 && !pu64i(w[2], &a)) q_cat(r, a);
+	else if (!strcmp(w[1], "cat") && nw == 3 && !pu64i(w[2], &a)) q_cat(r, a, "rbs");
+	else if (!strcmp(w[1], "cat") && nw == 4 && !pu64i(w[2], &a) && strlen(w[3]) <= 6 && strspn(w[3], "rbs") == strlen(w[3])) q_cat(r, a, w[3]);
+	else if (!strcmp(w[1], "frag") && nw == 3 && !pu64i(w[2], &a)) q_cat(r, a, "b");
+	else if (!strcmp(w[1], "stream") && nw == 3 && !pu64i(w[2], &a)) q_cat(r, a, "s");
+	else if (!strcmp(w[1], "block") && nw == 4 && !pu64i(w[2], &a) && !pu64i(w[3], &b)) q_block(r, a, b);
 	else if (!strcmp(w[1], "xattr") && nw == 3 && !pu64i(w[2], &a)) q_xattr(r, a);
 	else if (!strcmp(w[1], "xattrkv") && nw == 3 && !pu64i(w[2], &a)) q_xattrkv(r, a);
 	else if (!strcmp(w[1], "id") && nw == 3 && !pu64i(w[2], &a)) q_id(r, a);
 	else printf("bad-op");
 }
 
+#define NLS 8
+static sqfs_dir_reader_state_t g_ls[NLS];
+static int g_ls_open[NLS];
+
+static int ls_next(rset_t *r, sqfs_dir_reader_state_t *state)
+{
+	sqfs_dir_node_t *ent = NULL;
+	int st = sqfs_dir_reader_read(r->dr, state, &ent);
+	if (st > 0) printf("eof");
+	else if (st < 0) printf("st=%d", st);
+	else {
+		unsigned long long h = fnv(FNV0, &ent->type, sizeof(ent->type));
+		h = fnv(h, &ent->size, sizeof(ent->size));
+		h = fnv(h, ent->name, (size_t)ent->size + 1);
+		printf("ent=%016llx ref=%llu", h, (unsigned long long)state->ent_ref);
+		sqfs_free(ent);
+	}
+	return st;
+}
+
 void h_c10_img_reset(void)
 {
+	int i;
 	if (g_hist_ok) rset_destroy(&g_hist);
 	g_hist_ok = 0; g_super_ok = 0;
+	for (i = 0; i < NLS; ++i) g_ls_open[i] = 0;
 }
 
 void op_image(char **w, int nw)
@@ -353,6 +407,43 @@ void op_image(char **w, int nw)
 		if (f.cmp) walk(&f); else printf("refs=-");
 		rset_destroy(&f);
 		putchar('\n');
+		return;
+	}
+	if (!g_hist.cmp) { printf("nocodec=%d\n", g_hist.st_cmp); return; }
+	if (!strcmp(w[1], "lsopen") && nw == 4) {
+		sqfs_u64 slot, ref;
+		sqfs_inode_generic_t *ino = NULL;
+		int st;
+		if (pu64i(w[2], &slot) || pu64i(w[3], &ref) || slot >= NLS) { puts("bad-op"); return; }
+		g_ls_open[slot] = 0;
+		st = sqfs_dir_reader_get_inode(g_hist.dr, ref, &ino);
+		if (st == 0) {
+			st = sqfs_dir_reader_open_dir(g_hist.dr, ino, &g_ls[slot], 0);
+			sqfs_free(ino);
+			if (st == 0) g_ls_open[slot] = 1;
+		}
+		printf("st=%d\n", st);
+		return;
+	}
+	if (!strcmp(w[1], "lsnext") && nw == 3) {
+		sqfs_u64 slot;
+		sqfs_dir_reader_state_t copy;
+		rset_t f;
+		int st;
+		if (pu64i(w[2], &slot) || slot >= NLS) { puts("bad-op"); return; }
+		if (!g_ls_open[slot]) { puts("closed"); return; }
+		copy = g_ls[slot];
+		st = ls_next(&g_hist, &g_ls[slot]);
+		if (st != 0) g_ls_open[slot] = 0;
+		printf(" || ");
+		rset_create(&f);
+		if (f.cmp) ls_next(&f, &copy); else printf("nocodec");
+		rset_destroy(&f);
+		putchar('\n');
+		return;
+	}
+	if (!strcmp(w[1], "reload") && nw == 2) {
+		printf("st=%d\n", sqfs_data_reader_load_fragment_table(g_hist.data, &g_super));
 		return;
 	}
 	{
